@@ -243,7 +243,9 @@ def oracle(payload):
                 sp = copy.deepcopy(spec); sp['loads'] = [dict(kind='skin', tag=t, cond=sgs[t]) for t in order]
                 mK = None
                 try:
-                    argv = gen.to_argv(sp, with_loads=False) + ['--skin-effect-conductivity=%r,%d' % (sgs[t], t) for t in order]
+                    # each of them as a conductivity or as the resistivity 1 / conductivity
+                    argv = gen.to_argv(sp, with_loads=False) + [('--skin-effect-conductivity=%r,%d' % (sgs[t], t)) if rng.random() < 0.5
+                                                                else ('--skin-effect-resistivity=%r,%d' % (1.0 / sgs[t], t)) for t in order]
                     from mininec.mininec import main as _main
                     import io as _io
                     mK = _main(argv, f_err=_io.StringIO(), return_mininec=True)
